@@ -257,15 +257,19 @@ impl Tableau {
             Some(first) => {
                 let mut min = first;
                 for (i, ratio) in valid {
-                    if float_eq(ratio, min.1) {
-                        //if we found a tie, we use the Bland's rule for anti-cycling, but prefer to prioritize some variables
+                    // the ratio test itself is exact: a row whose ratio is smaller by less than the
+                    // tolerance must still win, otherwise the pivot drives its right-hand side to
+                    // -a[i][h] * (difference), which is unbounded in the size of the coefficient.
+                    // Only EXACT ties are broken by Bland's rule (smaller basic index), preferring
+                    // the variables the caller wants out of the basis.
+                    if ratio < min.1 {
+                        min = (i, ratio);
+                    } else if ratio == min.1 {
                         let to_prefer = variables_to_prefer.contains(&basis[i])
                             && !variables_to_prefer.contains(&basis[min.0]);
                         if basis[i] < basis[min.0] || to_prefer {
                             min = (i, ratio);
                         }
-                    } else if float_lt(ratio, min.1) {
-                        min = (i, ratio);
                     }
                 }
                 Some(min)
